@@ -47,10 +47,15 @@ static int wit_lookup(const char *name, long long *vals, int max)
 #define WIT_OUT(name, n) unsigned char *name = calloc((n) ? (n) : 1, 1)
 #elif defined(VERIF_WITNESS)
 unsigned char nondet_uchar(void);
+#ifdef WLEN
+#define WIT_CONST_LEN(len) WLEN      /* assumed equal to len by the harness */
+#else
+#define WIT_CONST_LEN(len) (len)
+#endif
 #define WIT_SCALAR(type, name) type name; { type nondet_; name = nondet_; }
 #define WIT_BYTES(name, cap, len) unsigned char name##_store[cap]; unsigned char *name; { int i_; \
 	for (i_ = 0; i_ < (cap); i_++) name##_store[i_] = nondet_uchar(); \
-	__CPROVER_assume((size_t)(len) <= (size_t)(cap)); name = malloc(len); \
+	__CPROVER_assume((size_t)(len) <= (size_t)(cap)); name = malloc(WIT_CONST_LEN(len)); \
 	for (i_ = 0; i_ < (cap); i_++) if ((size_t)i_ < (size_t)(len)) name[i_] = name##_store[i_]; }
 #define WIT_ASSUME(c) __CPROVER_assume(c)
 #define WIT_CHECK(c, text) __CPROVER_assert(c, "WIT_CHECK: " text)
